@@ -166,14 +166,14 @@ Proof.
 Qed.
 
 (* ---------------------------------------------------------------- withdraw *)
-Lemma withdraw_HOk2 w w' a b amount all hb hb' ac ac' :
-  0 <= amount -> HOk2 w -> eff1 w w' a b hb hb' ac ac' -> withdraw_facts w w' a b amount all hb hb' ac ac' -> HOk2 w'.
+Lemma withdraw_core_HOk2 w w' a b amount all hb hb' ac ac' :
+  0 <= amount -> HOk2 w -> eff1 w w' a b hb hb' ac ac' -> withdraw_core w b amount all hb hb' ac ac' -> HOk2 w'.
 Proof.
   intros Hamt H2 E F. pose proof H2 as (Hpf & L & Hb). pose proof (HOk2_HOk _ H2) as (_ & _ & Ha).
   pose proof E as (E1 & E2 & E3 & E4 & E5 & E6 & E7).
   destruct (Hb _ _ E1) as (Hok & Hfr). destruct (Ha _ _ E2) as (Wac & Pac).
-  destruct (withdraw_gap _ _ _ _ _ _ _ _ _ _ Hamt F Hok Wac (Pac _ _ E1)) as (Hok' & _ & _).
-  destruct F as (bk1 & i & bl & bk2 & bl2 & pre & paid & bk3 & Hacc & _ & Hi & Hbl & Hprim & _ & _ & Hcache & -> & -> & _).
+  destruct (withdraw_core_gap _ _ _ _ _ _ _ _ Hamt F Hok Wac (Pac _ _ E1)) as (Hok' & _ & _).
+  destruct F as (bk1 & i & bl & bk2 & bl2 & pre & paid & bk3 & Hacc & Hi & Hbl & Hprim & _ & _ & Hcache & -> & ->).
   destruct (accrue_tot _ _ _ _ Hok Hacc) as (T1 & T2 & Hsv1).
   pose proof (fees_rep_accrue _ _ _ _ Hok Hfr Hacc) as Hfr1.
   destruct (slot_located _ bk1 _ (hw_now w) false _ _ _ (find_as_located _ _ _ Hi) Hbl Wac) as (Hact & Hbank & Wbl & _ & _).
@@ -195,6 +195,10 @@ Proof.
   - eapply banks_ok_set; [exact Hb|exact E3|exact Hok'|].
     cbn [mk_hb set_hb_b hb_b]. eapply fees_rep_gp; [|eapply gp_cache; eauto]. eapply fees_rep_gp; [exact Hfr1|exact Hgp].
 Qed.
+Lemma withdraw_HOk2 w w' a b amount all hb hb' ac ac' :
+  0 <= amount -> HOk2 w -> eff1 w w' a b hb hb' ac ac' -> withdraw_facts w w' a b amount all hb hb' ac ac' -> HOk2 w'.
+Proof. intros Hamt H2 E F. eapply withdraw_core_HOk2; [exact Hamt | exact H2 | exact E | eapply withdraw_facts_core; exact F]. Qed.
+
 
 (* ---------------------------------------------------------------- borrow *)
 Lemma borrow_HOk2 w w' a b amount hb hb' ac ac' :
